@@ -142,6 +142,10 @@ class HookDispatch(Harness):
             out.append({"hooks": [{"type": "market", "before": before, "n": None, "filter": "inst:IDX"},
                                   {"type": "market", "before": before, "n": 1, "filter": "class:IndexMarket"},
                                   {"type": "market", "before": before, "n": None, "filter": "inst:M0"}], "where": 0})
+        # a run without a logger (market-step and session hooks)
+        for typ, before in (("market", True), ("market", False), ("session", True), ("session", False)):
+            out.append({"hooks": [{"type": typ, "before": before, "n": None, "filter": None}], "where": 0, "no_logger": True})
+            out.append({"hooks": [{"type": typ, "before": before, "n": 2, "filter": None}], "where": 0, "no_logger": True})
         # the probe's class inherits all its handlers; another event is listed in the other session
         for typ, before in HOOK_KINDS:
             out.append({"hooks": [{"type": typ, "before": before, "n": None, "filter": None}], "where": 0, "inherit": True})
@@ -182,7 +186,8 @@ class HookDispatch(Harness):
                                                            "1": {"side": "S", "active": [1, 2]}},
                 "vol_fixed": 1, "price_fixed": 300, "hooks": hooks, "rewrite": case.get("rewrite"),
                 "acts_by_time": {"0": ["limit"], "1": ["limit", "cancel"], "2": ["limit"]}}
-        ctx = rn.make_run(g, st, menu, classes=(SpecProbe, InheritingProbe, IdleEvent))
+        ctx = rn.make_run(g, st, menu, classes=(SpecProbe, InheritingProbe, IdleEvent),
+                          **({"logger_cls": None} if case.get("no_logger") else {}))
         ctx.rewritten = {}
         ctx.runner._run()
         self.oracle(g, ctx, hooks, case)
@@ -378,6 +383,8 @@ class FundamentalShock(Harness):
                                     "chunk": 2 if (k + w) % 2 else 100})
             out.append({"where": where, "k": 0, "w": 2, "target": "M1", "enabled": False})
             out.append({"where": where, "k": 1, "w": 0, "target": "M1", "enabled": True, "chunk": 100})   # empty window
+            out.append({"where": where, "k": 0, "w": 2, "target": "M1", "enabled": True, "chunk": 100, "no_logger": True})
+            out.append({"where": where, "k": 1, "w": 2, "target": "M2", "enabled": True, "chunk": 2, "no_logger": True})
             # a second shock (its own rate) whose window overlaps: on a market stepped earlier, later, or the same one
             for t2 in ("M0", "M2", "M1"):
                 out.append({"where": where, "k": 0, "w": 2, "target": "M1", "enabled": True, "chunk": 100,
@@ -416,10 +423,30 @@ class FundamentalShock(Harness):
                     before.setdefault((m_.market_id, m_.get_time()), m_.get_fundamental_price())
             elif kind == "log-direct" and isinstance(p, MarketStepBeginLog):
                 after[p.market.market_id, p.market.get_time()] = p.market.get_fundamental_price()
-        ctx = rn.make_run(g, st, {"acts": ["none"]}, on_event=on_event)
+        ctx = rn.make_run(g, st, {"acts": ["none"]}, on_event=on_event,
+                          **({"logger_cls": None} if case.get("no_logger") else {}))
         sim = ctx.sim
         sim.fundamentals._generate_chunk_size = case.get("chunk", 100)     # public instance attribute
         ctx.runner._run()
+        # the recorded series themselves (zero drift and volatility): each value is the previous one times the factors
+        # of the shocks that hit that market at that step -- independent of any hook or logger
+        for m_ in sim.markets:
+            series = m_.get_fundamental_prices(range(5))
+            prev = markets[m_.name]["marketPrice"]
+            for t_, v in enumerate(series):
+                fac = 1
+                for where, k, w, target, r, enabled in shocks:
+                    start = 0 if where == 0 else 2
+                    if enabled and m_.name == target and start + k <= t_ <= start + k + w - 1:
+                        fac = fac * (1 + r)
+                g.require(v == prev * fac, "C14.fundamental-series",
+                          f"fundamental price of {m_.name} at t={t_} is not the previous value times the shocks of that step")
+                prev = v
+        if case.get("no_logger"):
+            g.note("nontrivial")
+            g.note("non-target-step-checked")
+            g.note("outside-window-step-checked")
+            return
         for (mid, t), b in sorted(before.items()):
             a = after[mid, t]
             factor, hit = 1, False
